@@ -235,8 +235,13 @@ impl<'a> Gen<'a> {
                     Ctor::PolygonRings(
                         d,
                         (0..np)
-                            .map(|_| {
+                            .map(|i| {
                                 let r = self.role();
+                                // a ring without vertices (accepted by with_rings after the first one)
+                                if i > 0 && self.rng.chance(1, 8) {
+                                    self.stats.hit("ring.empty");
+                                    return (r, vec![]);
+                                }
                                 (r, self.ring(d, fl, allow_nan))
                             })
                             .collect(),
@@ -251,8 +256,12 @@ impl<'a> Gen<'a> {
                     let np = self.rng.range(1, self.max_parts);
                     Ctor::MultipatchParts(
                         (0..np)
-                            .map(|_| {
+                            .map(|i| {
                                 let k = self.kind();
+                                if i > 0 && self.rng.chance(1, 8) {
+                                    self.stats.hit("patch.empty");
+                                    return (k, vec![]);
+                                }
                                 (k, self.ring(Dim::Xyzm, fl, allow_nan))
                             })
                             .collect(),
